@@ -4,12 +4,14 @@
      Module Gersh  : Gershgorin branch of spectral_radius: value independent of the thread
                      chunking, upper bound of |lambda| for every eigenpair (ordered field
                      hypotheses, closed at Qc);
-     Module PwCopy : pointwise_matrix (counting pass = fill pass, fuel, wf) and the crs
-                     constructors (round trip);
-     Module PwPos  : pointwise_matrix = block maximum on block rows with a single block column;
+     Module PwCopy : crs constructors (round trip), generic helpers, and the structural lemmas of
+                     the PRE-fix pointwise scan (definitions *_old);
+     Module PwNew  : pointwise_matrix, current code: counting pass = fill pass, fuel, wf;
+     Module PwSpec : pointwise_matrix, current code = block maximum on row-sorted input;
      Section PowerMethod : structure of one power-method sweep;
-     top level     : refutation of the block-maximum specification of pointwise_matrix by the
-                     faithful model (witnesses replayed on the implementation by the harness). *)
+     top level     : refutation of the block-maximum specification by the faithful model of the
+                     PRE-fix scan pointwise_matrix_old (witnesses were replayed on the implementation
+                     before the fix; finding F-C08-pointwise-terminator, fixed). *)
 From Coq Require Import Sorting.Sorted Sorting.Permutation.
 From Coq Require Import QArith Qcanon Qcabs.
 From Coq Require Import ZifyBool.
@@ -600,11 +602,12 @@ Module Gersh.
 Definition sle {S : Scalar} (x y : S) : Prop := sltb y x = false.
 
 (* the last stored diagonal entry of row i (identity when the row has none):
-   the value of the C++ local [dia] after row i when the guard below holds *)
+   the value of the C++ row-local [dia] at the end of row i *)
 Definition last_diag {S : Scalar} (A : crs S) (i : nat) : S :=
   match last_col (nth i (rows A) []) i with Some d => d | None => s1 end.
 
-(* guard of the scaled variant: every row has a stored diagonal entry *)
+(* every row has a stored diagonal entry (no longer a guard of G2 since [dia] is
+   reset at every row; kept because other files refer to it) *)
 Definition has_last_diag_row {S : Scalar} (ir : nat * row S) : bool :=
   match last_col (snd ir) (fst ir) with Some _ => true | None => false end.
 Definition has_last_diag {S : Scalar} (A : crs S) : bool :=
@@ -785,46 +788,57 @@ Proof.
     destruct (last_col r i); [reflexivity|]. destruct (Nat.eqb c i); reflexivity.
 Qed.
 
-Lemma gersh_row_unscaled (e dia : S) (ir : nat * row) :
-  gersh_row false (e, dia) ir = (smax e (gersh_spec_row false ir), dia).
+(* the inner loop as the C++ runs it now: [s = 0], [dia = identity] at every row *)
+Lemma gersh_inner0 (i : nat) (r : row) :
+  fold_left (fun (sd : S * S) e =>
+               (fst sd + sabs (snd e),
+                if true && Nat.eqb (fst e) i then snd e else snd sd)) r (s0, s1)
+  = (abs_row_sum r, match last_col r i with Some d => d | None => s1 end).
+Proof. rewrite (gersh_inner true i). reflexivity. Qed.
+
+Lemma gersh_row_spec (scale : bool) (e : S) (ir : nat * row) :
+  gersh_row scale e ir = smax e (gersh_spec_row scale ir).
 Proof.
-  unfold gersh_row. rewrite (gersh_inner false (fst ir)). reflexivity.
+  unfold gersh_row, gersh_spec_row. rewrite (gersh_inner scale (fst ir)).
+  cbn [fst snd]. destruct scale; reflexivity.
 Qed.
 
-Lemma gersh_row_scaled (e dia : S) (ir : nat * row) :
-  has_last_diag_row ir = true ->
-  exists dia', gersh_row true (e, dia) ir = (smax e (gersh_spec_row true ir), dia').
-Proof.
-  unfold gersh_row, has_last_diag_row, gersh_spec_row. rewrite (gersh_inner true (fst ir)).
-  cbn [fst snd]. destruct (last_col (snd ir) (fst ir)) as [d|]; [|discriminate].
-  intros _. exists d. reflexivity.
-Qed.
+Lemma gersh_row_unscaled (e : S) (ir : nat * row) :
+  gersh_row false e ir = smax e (gersh_spec_row false ir).
+Proof. apply gersh_row_spec. Qed.
 
-Lemma gersh_fold_unscaled (irs : list (nat * row)) (e dia : S) :
-  fold_left (gersh_row false) irs (e, dia) = (max_from e (map (gersh_spec_row false) irs), dia).
+Lemma gersh_row_scaled (e : S) (ir : nat * row) :
+  gersh_row true e ir = smax e (gersh_spec_row true ir).
+Proof. apply gersh_row_spec. Qed.
+
+Lemma gersh_fold (scale : bool) (irs : list (nat * row)) (e : S) :
+  fold_left (gersh_row scale) irs e = max_from e (map (gersh_spec_row scale) irs).
 Proof.
   revert e; induction irs as [|ir irs IH]; intro e; cbn [fold_left map]; [reflexivity|].
-  rewrite gersh_row_unscaled. apply IH.
+  rewrite gersh_row_spec. apply IH.
 Qed.
 
-Lemma gersh_fold_scaled (irs : list (nat * row)) (e dia : S) :
-  forallb has_last_diag_row irs = true ->
-  fst (fold_left (gersh_row true) irs (e, dia)) = max_from e (map (gersh_spec_row true) irs).
-Proof.
-  revert e dia; induction irs as [|ir irs IH]; intros e dia H; cbn [fold_left map forallb] in *;
-    [reflexivity|].
-  apply andb_prop in H as [H1 H2].
-  destruct (gersh_row_scaled e dia ir H1) as [dia' ->]. apply IH. exact H2.
-Qed.
+Lemma gersh_fold_unscaled (irs : list (nat * row)) (e : S) :
+  fold_left (gersh_row false) irs e = max_from e (map (gersh_spec_row false) irs).
+Proof. apply gersh_fold. Qed.
+
+Lemma gersh_fold_scaled (irs : list (nat * row)) (e : S) :
+  fold_left (gersh_row true) irs e = max_from e (map (gersh_spec_row true) irs).
+Proof. apply gersh_fold. Qed.
+
+(* one thread computes the maximum of the row estimates of its chunk, for both
+   variants and without any assumption on the diagonal *)
+Lemma gersh_chunk_spec (scale : bool) (irs : list (nat * row)) :
+  gersh_chunk scale irs = max_from s0 (map (gersh_spec_row scale) irs).
+Proof. unfold gersh_chunk. apply gersh_fold. Qed.
 
 Lemma gersh_chunk_unscaled (irs : list (nat * row)) :
   gersh_chunk false irs = max_from s0 (map (gersh_spec_row false) irs).
-Proof. unfold gersh_chunk. rewrite gersh_fold_unscaled. reflexivity. Qed.
+Proof. apply gersh_chunk_spec. Qed.
 
 Lemma gersh_chunk_scaled (irs : list (nat * row)) :
-  forallb has_last_diag_row irs = true ->
   gersh_chunk true irs = max_from s0 (map (gersh_spec_row true) irs).
-Proof. apply gersh_fold_scaled. Qed.
+Proof. apply gersh_chunk_spec. Qed.
 
 Lemma indexed_length {X} (l : list X) : length (indexed l) = length l.
 Proof. unfold indexed. rewrite combine_length, seq_length. apply Nat.min_id. Qed.
@@ -846,17 +860,17 @@ Proof.
   - rewrite indexed_length. exact H.
 Qed.
 
-(* G2 *)
+(* G2: no assumption on the diagonal (a row without stored diagonal entry is
+   scaled by the identity, in the code and in the specification alike) *)
 Theorem gersh_value_scaled (lens : list nat) (A : crs) :
-  has_last_diag A = true ->
   nrows A <= fold_right Nat.add 0 lens ->
   spectral_radius_gersh true lens A = gersh_spec true A.
 Proof.
-  intros Hd H. unfold spectral_radius_gersh.
-  rewrite (chunks_max has_last_diag_row (gersh_spec_row true) (gersh_chunk true)).
+  intro H. unfold spectral_radius_gersh.
+  rewrite (chunks_max (fun _ => true) (gersh_spec_row true) (gersh_chunk true)).
   - fold (gersh_spec true A). rewrite gersh_spec_nonneg. reflexivity.
-  - apply gersh_chunk_scaled.
-  - exact Hd.
+  - intros ch _. apply gersh_chunk_scaled.
+  - apply forallb_forall. reflexivity.
   - apply sle_refl.
   - rewrite indexed_length. exact H.
 Qed.
@@ -868,10 +882,9 @@ Corollary gersh_unscaled_chunk_indep (lens lens' : list nat) (A : crs) :
 Proof. intros H H'. rewrite !gersh_value_unscaled by assumption. reflexivity. Qed.
 
 Corollary gersh_scaled_chunk_indep (lens lens' : list nat) (A : crs) :
-  has_last_diag A = true ->
   nrows A <= fold_right Nat.add 0 lens -> nrows A <= fold_right Nat.add 0 lens' ->
   spectral_radius_gersh true lens A = spectral_radius_gersh true lens' A.
-Proof. intros Hd H H'. rewrite !gersh_value_scaled by assumption. reflexivity. Qed.
+Proof. intros H H'. rewrite !gersh_value_scaled by assumption. reflexivity. Qed.
 
 (* ------------------------------------------------------------------ *)
 (* ordered-ring lemmas                                                 *)
@@ -1169,19 +1182,18 @@ Proof.
 Qed.
 
 Theorem gersh_value_scaled_Qc (lens : list nat) (A : crs QcS) :
-  has_last_diag A = true ->
   nrows A <= fold_right Nat.add 0 lens ->
   spectral_radius_gersh true lens A = gersh_spec true A.
 Proof.
   exact (gersh_value_scaled QcS_lt_irrefl QcS_lt_trans QcS_lt_total lens A).
 Qed.
 
-(* same, with the guard of MatOps.diagonal *)
+(* same, under the guard of MatOps.diagonal (now superfluous; kept for the callers) *)
 Theorem gersh_value_scaled_has_diag_Qc (lens : list nat) (A : crs QcS) :
   has_diag A = true ->
   nrows A <= fold_right Nat.add 0 lens ->
   spectral_radius_gersh true lens A = gersh_spec true A.
-Proof. rewrite <- has_last_diag_has_diag. apply gersh_value_scaled_Qc. Qed.
+Proof. intros _. apply gersh_value_scaled_Qc. Qed.
 
 Theorem gersh_bound_unscaled_Qc (A : crs QcS) (v : vec QcS) (lam : QcS) :
   wf A = true -> nrows A = ncols A ->
@@ -1220,14 +1232,13 @@ Qed.
 
 Corollary spectral_radius_gersh_scaled_bound_Qc (lens : list nat) (A : crs QcS) (v : vec QcS) (lam : QcS) :
   nrows A <= fold_right Nat.add 0 lens ->
-  has_last_diag A = true ->
   wf A = true -> nrows A = ncols A ->
   (forall i, i < nrows A -> last_diag A i <> s0) ->
   (forall i, i < nrows A -> Ax A v i = lam * last_diag A i * vget v i) ->
   (exists i, i < nrows A /\ vget v i <> s0) ->
   sltb (spectral_radius_gersh true lens A) (sabs lam) = false.
 Proof.
-  intros Hl Hg Hwf Hsq Hd Heig Hnz. rewrite gersh_value_scaled_Qc by assumption.
+  intros Hl Hwf Hsq Hd Heig Hnz. rewrite gersh_value_scaled_Qc by exact Hl.
   exact (gersh_bound_scaled_Qc A v lam Hwf Hsq Hd Heig Hnz).
 Qed.
 
@@ -1290,16 +1301,20 @@ Proof.
     discriminate.
 Qed.
 
-(* the guard of G2 is needed: without a diagonal entry in row 1 the C++ local
-   [dia] leaks from row 0 when both rows run on one thread, and is the identity
-   when row 1 starts a thread: the result depends on the chunking *)
+(* no guard is needed any more: row 1 has no stored diagonal entry, it is scaled by
+   the identity whether it starts a thread or follows row 0 on the same thread (the old
+   code, with a thread-private [dia], returned 2 for the chunking [2] and 4 for [1;1]) *)
 Definition exC : crs QcS := mkCrs 2 [ [(0, qc 2 1)]; [(0, qc 4 1)] ].
 
-Example exC_guard_needed :
+Example exC_chunk_independent :
   has_last_diag exC = false /\
-  spectral_radius_gersh true [2] exC = qc 2 1 /\
-  spectral_radius_gersh true [1; 1] exC = qc 4 1.
-Proof. split; [reflexivity|]. split; apply Qc_is_canon; vm_compute; reflexivity. Qed.
+  spectral_radius_gersh true [2] exC = spectral_radius_gersh true [1; 1] exC /\
+  spectral_radius_gersh true [2] exC = qc 4 1 /\
+  spectral_radius_gersh true [1; 1] exC = qc 4 1 /\
+  gersh_spec true exC = qc 4 1.
+Proof.
+  split; [reflexivity|]. repeat split; apply Qc_is_canon; vm_compute; reflexivity.
+Qed.
 
 Print Assumptions gersh_value_unscaled_Qc.
 Print Assumptions gersh_value_scaled_Qc.
@@ -1310,7 +1325,7 @@ Print Assumptions spectral_radius_gersh_bound_Qc.
 Print Assumptions spectral_radius_gersh_scaled_bound_Qc.
 Print Assumptions exA_scaled.
 Print Assumptions exB_bound.
-Print Assumptions exC_guard_needed.
+Print Assumptions exC_chunk_independent.
 
 End Gersh.
 
@@ -1326,43 +1341,43 @@ Local Notation crs := (crs S).
 (* P1: counting pass = fill pass                                       *)
 
 Lemma pwc_scan_row_eq ce (r : row) cur acc :
-  pwc_scan_row ce (map fst r) cur =
-  (map fst (fst (fst (pw_scan_row ce r cur acc))), snd (fst (pw_scan_row ce r cur acc))).
+  pwc_scan_row_old ce (map fst r) cur =
+  (map fst (fst (fst (pw_scan_row_old ce r cur acc))), snd (fst (pw_scan_row_old ce r cur acc))).
 Proof.
   revert acc; induction r as [|[c v] tl IH]; intro acc; simpl; [reflexivity|].
   destruct (Nat.leb ce c); simpl; [reflexivity|]. apply IH.
 Qed.
 
 Lemma pwc_pass_eq ce (js : list row) cur acc :
-  pwc_pass ce (map (map fst) js) cur =
-  (map (map fst) (fst (fst (pw_pass ce js cur acc))), snd (fst (pw_pass ce js cur acc))).
+  pwc_pass_old ce (map (map fst) js) cur =
+  (map (map fst) (fst (fst (pw_pass_old ce js cur acc))), snd (fst (pw_pass_old ce js cur acc))).
 Proof.
   revert cur acc; induction js as [|r rest IH]; intros cur acc; simpl; [reflexivity|].
   rewrite (pwc_scan_row_eq ce r cur acc).
-  destruct (pw_scan_row ce r cur acc) as [[r' cur1] acc1]; simpl.
+  destruct (pw_scan_row_old ce r cur acc) as [[r' cur1] acc1]; simpl.
   rewrite (IH cur1 acc1).
-  destruct (pw_pass ce rest cur1 acc1) as [[rest' cur2] acc2]; simpl. reflexivity.
+  destruct (pw_pass_old ce rest cur1 acc1) as [[rest' cur2] acc2]; simpl. reflexivity.
 Qed.
 
 Lemma pwc_loop_eq fuel bs cur (js : list row) :
-  pwc_loop fuel bs cur (map (map fst) js) = length (pw_loop fuel bs cur js).
+  pwc_loop_old fuel bs cur (map (map fst) js) = length (pw_loop_old fuel bs cur js).
 Proof.
   revert cur js; induction fuel as [|f IH]; intros cur js; simpl; [reflexivity|].
   destruct cur as [c0|]; [|reflexivity].
   rewrite (pwc_pass_eq _ js None None).
-  destruct (pw_pass ((c0 / bs + 1) * bs) js None None) as [[js' cur'] acc]; simpl.
+  destruct (pw_pass_old ((c0 / bs + 1) * bs) js None None) as [[js' cur'] acc]; simpl.
   rewrite IH. reflexivity.
 Qed.
 
 Lemma pw_block_count_eq bs (js : list row) :
-  pw_block_count bs js = length (pw_block_row bs js).
-Proof. unfold pw_block_count, pw_block_row. apply pwc_loop_eq. Qed.
+  pw_block_count_old bs js = length (pw_block_row_old bs js).
+Proof. unfold pw_block_count_old, pw_block_row_old. apply pwc_loop_eq. Qed.
 
 Theorem pointwise_counts_correct (A C : crs) bs :
-  pointwise_matrix A bs = Some C ->
-  pointwise_counts A bs = map (@length _) (rows C).
+  pointwise_matrix_old A bs = Some C ->
+  pointwise_counts_old A bs = map (@length _) (rows C).
 Proof.
-  unfold pointwise_matrix, pointwise_counts.
+  unfold pointwise_matrix_old, pointwise_counts_old.
   destruct (Nat.eqb bs 0); [discriminate|].
   destruct (negb (Nat.eqb (nrows A / bs * bs) (nrows A))); [discriminate|].
   intro H; injection H as <-. simpl. rewrite map_map.
@@ -1403,7 +1418,7 @@ Proof. reflexivity. Qed.
 
 (* one row: the rest is never longer; if [cur] changed, an entry was consumed *)
 Lemma pw_scan_row_length ce (r : row) cur acc r' cur' acc' :
-  pw_scan_row ce r cur acc = (r', cur', acc') ->
+  pw_scan_row_old ce r cur acc = (r', cur', acc') ->
   length r' <= length r /\ (cur' = cur \/ length r' < length r).
 Proof.
   revert acc; induction r as [|[c v] tl IH]; intro acc; simpl.
@@ -1415,13 +1430,13 @@ Qed.
 
 (* a pass never increases [total]; if [cur] changed, it strictly decreases it *)
 Lemma pw_pass_total ce (js : list row) cur acc js' cur' acc' :
-  pw_pass ce js cur acc = (js', cur', acc') ->
+  pw_pass_old ce js cur acc = (js', cur', acc') ->
   total js' <= total js /\ (cur' = cur \/ total js' < total js).
 Proof.
   revert cur acc js' cur' acc'; induction js as [|r rest IH]; intros cur acc js' cur' acc'; simpl.
   - intro H; injection H as <- <- <-. auto.
-  - destruct (pw_scan_row ce r cur acc) as [[r1 cur1] acc1] eqn:E1.
-    destruct (pw_pass ce rest cur1 acc1) as [[rest1 cur2] acc2] eqn:E2.
+  - destruct (pw_scan_row_old ce r cur acc) as [[r1 cur1] acc1] eqn:E1.
+    destruct (pw_pass_old ce rest cur1 acc1) as [[rest1 cur2] acc2] eqn:E2.
     intro H; injection H as <- <- <-.
     apply pw_scan_row_length in E1. apply IH in E2.
     rewrite !(total_cons (X:=nat * S)).
@@ -1431,27 +1446,27 @@ Proof.
 Qed.
 
 Lemma pw_pass_total_le ce (js : list row) cur acc :
-  total (fst (fst (pw_pass ce js cur acc))) <= total js.
+  total (fst (fst (pw_pass_old ce js cur acc))) <= total js.
 Proof.
-  destruct (pw_pass ce js cur acc) as [[js' cur'] acc'] eqn:E.
+  destruct (pw_pass_old ce js cur acc) as [[js' cur'] acc'] eqn:E.
   apply pw_pass_total in E. simpl. lia.
 Qed.
 
 Lemma pw_pass_total_lt ce (js : list row) acc js' c acc' :
-  pw_pass ce js None acc = (js', Some c, acc') -> total js' < total js.
+  pw_pass_old ce js None acc = (js', Some c, acc') -> total js' < total js.
 Proof.
   intro E. apply pw_pass_total in E. destruct E as [_ [E|E]]; [discriminate|exact E].
 Qed.
 
-Lemma pw_loop_None fuel bs (js : list row) : pw_loop fuel bs None js = [].
+Lemma pw_loop_None fuel bs (js : list row) : pw_loop_old fuel bs None js = [].
 Proof. destruct fuel; reflexivity. Qed.
 
 Theorem pw_loop_fuel_indep fuel k bs cur (js : list row) :
-  total js < fuel -> pw_loop fuel bs cur js = pw_loop (fuel + k) bs cur js.
+  total js < fuel -> pw_loop_old fuel bs cur js = pw_loop_old (fuel + k) bs cur js.
 Proof.
   revert cur js; induction fuel as [|f IH]; intros cur js Hlt; [lia|].
   simpl. destruct cur as [c0|]; [|reflexivity].
-  destruct (pw_pass ((c0 / bs + 1) * bs) js None None) as [[js' cur'] acc] eqn:E.
+  destruct (pw_pass_old ((c0 / bs + 1) * bs) js None None) as [[js' cur'] acc] eqn:E.
   f_equal. destruct cur' as [c1|].
   - apply IH. apply pw_pass_total_lt in E. lia.
   - rewrite !pw_loop_None. reflexivity.
@@ -1459,7 +1474,7 @@ Qed.
 
 (* any two sufficient fuels agree *)
 Corollary pw_loop_fuel_any f1 f2 bs cur (js : list row) :
-  total js < f1 -> total js < f2 -> pw_loop f1 bs cur js = pw_loop f2 bs cur js.
+  total js < f1 -> total js < f2 -> pw_loop_old f1 bs cur js = pw_loop_old f2 bs cur js.
 Proof.
   intros H1 H2. destruct (Nat.le_ge_cases f1 f2) as [L|L].
   - replace f2 with (f1 + (f2 - f1)) by lia. apply pw_loop_fuel_indep. exact H1.
@@ -1467,22 +1482,22 @@ Proof.
 Qed.
 
 Corollary pw_block_row_fuel bs (js : list row) k :
-  pw_block_row bs js = pw_loop (pw_fuel js + k) bs (pw_init js) js.
-Proof. unfold pw_block_row. apply pw_loop_fuel_indep. rewrite pw_fuel_total. lia. Qed.
+  pw_block_row_old bs js = pw_loop_old (pw_fuel js + k) bs (pw_init js) js.
+Proof. unfold pw_block_row_old. apply pw_loop_fuel_indep. rewrite pw_fuel_total. lia. Qed.
 
 (* the loop stops because [done] holds: with sufficient fuel, the unrolling equation
    of the C++ while loop holds without any fuel bookkeeping *)
 Corollary pw_loop_unroll fuel bs c0 (js : list row) :
   total js < fuel ->
-  pw_loop fuel bs (Some c0) js =
-  let '(js', cur', acc) := pw_pass ((c0 / bs + 1) * bs) js None None in
-  (c0 / bs, match acc with None => s0 | Some m => m end) :: pw_loop fuel bs cur' js'.
+  pw_loop_old fuel bs (Some c0) js =
+  let '(js', cur', acc) := pw_pass_old ((c0 / bs + 1) * bs) js None None in
+  (c0 / bs, match acc with None => s0 | Some m => m end) :: pw_loop_old fuel bs cur' js'.
 Proof.
   intro Hlt. destruct fuel as [|f]; [lia|].
-  change (pw_loop (Datatypes.S f) bs (Some c0) js) with
-    (let '(js', cur', acc) := pw_pass ((c0 / bs + 1) * bs) js None None in
-     (c0 / bs, match acc with None => s0 | Some m => m end) :: pw_loop f bs cur' js').
-  destruct (pw_pass ((c0 / bs + 1) * bs) js None None) as [[js' cur'] acc] eqn:E.
+  change (pw_loop_old (Datatypes.S f) bs (Some c0) js) with
+    (let '(js', cur', acc) := pw_pass_old ((c0 / bs + 1) * bs) js None None in
+     (c0 / bs, match acc with None => s0 | Some m => m end) :: pw_loop_old f bs cur' js').
+  destruct (pw_pass_old ((c0 / bs + 1) * bs) js None None) as [[js' cur'] acc] eqn:E.
   f_equal. destruct cur' as [c1|].
   - apply pw_loop_fuel_any; apply pw_pass_total_lt in E; lia.
   - rewrite !pw_loop_None. reflexivity.
@@ -1544,7 +1559,7 @@ Proof. intro H. apply pw_init_fold_lt; [assumption|exact I]. Qed.
 
 Lemma pw_scan_row_lt m ce (r : row) cur acc r' cur' acc' :
   Forall (ent_lt m) r -> cur_lt m cur ->
-  pw_scan_row ce r cur acc = (r', cur', acc') ->
+  pw_scan_row_old ce r cur acc = (r', cur', acc') ->
   Forall (ent_lt m) r' /\ cur_lt m cur'.
 Proof.
   revert acc; induction r as [|[c v] tl IH]; intros acc Hr Hc; simpl.
@@ -1558,15 +1573,15 @@ Qed.
 
 Lemma pw_pass_lt m ce (js : list row) cur acc js' cur' acc' :
   rows_lt m js -> cur_lt m cur ->
-  pw_pass ce js cur acc = (js', cur', acc') ->
+  pw_pass_old ce js cur acc = (js', cur', acc') ->
   rows_lt m js' /\ cur_lt m cur'.
 Proof.
   revert cur acc js' cur' acc'; induction js as [|r rest IH];
     intros cur acc js' cur' acc' Hj Hc; simpl.
   - intro H; injection H as <- <- <-. auto.
   - inversion Hj as [|? ? Hr Ht]; subst.
-    destruct (pw_scan_row ce r cur acc) as [[r1 cur1] acc1] eqn:E1.
-    destruct (pw_pass ce rest cur1 acc1) as [[rest1 cur2] acc2] eqn:E2.
+    destruct (pw_scan_row_old ce r cur acc) as [[r1 cur1] acc1] eqn:E1.
+    destruct (pw_pass_old ce rest cur1 acc1) as [[rest1 cur2] acc2] eqn:E2.
     intro H; injection H as <- <- <-.
     apply (pw_scan_row_lt m) in E1; [|assumption|assumption]. destruct E1 as [Hr1 Hc1].
     apply IH in E2; [|assumption|assumption]. destruct E2 as [Ht1 Hc2].
@@ -1576,12 +1591,12 @@ Qed.
 Lemma pw_loop_lt fuel bs m cur (js : list row) :
   0 < bs -> m = (m / bs) * bs ->
   rows_lt m js -> cur_lt m cur ->
-  Forall (ent_lt (m / bs)) (pw_loop fuel bs cur js).
+  Forall (ent_lt (m / bs)) (pw_loop_old fuel bs cur js).
 Proof.
   intros Hbs Hdiv. revert cur js; induction fuel as [|f IH]; intros cur js Hj Hc; simpl;
     [constructor|].
   destruct cur as [c0|]; [|constructor].
-  destruct (pw_pass ((c0 / bs + 1) * bs) js None None) as [[js' cur'] acc] eqn:E.
+  destruct (pw_pass_old ((c0 / bs + 1) * bs) js None None) as [[js' cur'] acc] eqn:E.
   apply (pw_pass_lt m) in E; [|assumption|exact I]. destruct E as [Hj' Hc'].
   constructor; [|apply IH; assumption].
   unfold ent_lt; simpl. simpl in Hc.
@@ -1590,18 +1605,18 @@ Qed.
 
 Lemma pw_block_row_lt bs m (js : list row) :
   0 < bs -> m = (m / bs) * bs -> rows_lt m js ->
-  row_wf (m / bs) (pw_block_row bs js) = true.
+  row_wf (m / bs) (pw_block_row_old bs js) = true.
 Proof.
-  intros Hbs Hdiv Hj. apply (proj2 (row_wf_iff _ _)). unfold pw_block_row.
+  intros Hbs Hdiv Hj. apply (proj2 (row_wf_iff _ _)). unfold pw_block_row_old.
   apply pw_loop_lt; [assumption|assumption|assumption|]. apply pw_init_lt; assumption.
 Qed.
 
 Theorem pointwise_matrix_wf (A C : crs) bs :
   wf A = true -> 0 < bs -> ncols A = (ncols A / bs) * bs ->
-  pointwise_matrix A bs = Some C ->
+  pointwise_matrix_old A bs = Some C ->
   wf C = true /\ nrows C = nrows A / bs /\ ncols C = ncols A / bs.
 Proof.
-  intros Hwf Hbs Hdiv. unfold pointwise_matrix.
+  intros Hwf Hbs Hdiv. unfold pointwise_matrix_old.
   destruct (Nat.eqb bs 0); [discriminate|].
   destruct (negb (Nat.eqb (nrows A / bs * bs) (nrows A))); [discriminate|].
   intro H; injection H as <-. unfold wf, nrows; simpl.
@@ -1614,9 +1629,9 @@ Qed.
 
 (* the precondition of the C++ (rows divisible) as an iff *)
 Lemma pointwise_matrix_some (A : crs) bs :
-  (exists C, pointwise_matrix A bs = Some C) <-> (bs <> 0 /\ nrows A / bs * bs = nrows A).
+  (exists C, pointwise_matrix_old A bs = Some C) <-> (bs <> 0 /\ nrows A / bs * bs = nrows A).
 Proof.
-  unfold pointwise_matrix. split.
+  unfold pointwise_matrix_old. split.
   - intros [C H]. destruct (Nat.eqb bs 0) eqn:E0; [discriminate|].
     destruct (Nat.eqb (nrows A / bs * bs) (nrows A)) eqn:E1; [|discriminate].
     apply Nat.eqb_neq in E0. apply Nat.eqb_eq in E1. auto.
@@ -1627,7 +1642,7 @@ Qed.
 (* the divisibility of ncols is needed: the C++ only checks the rows.  3 columns,
    block size 2: the entry in column 2 produces block column 1 >= mp = 3/2 = 1. *)
 Lemma pointwise_matrix_wf_needs_div :
-  exists (A C : crs), wf A = true /\ pointwise_matrix A 2 = Some C /\ wf C = false.
+  exists (A C : crs), wf A = true /\ pointwise_matrix_old A 2 = Some C /\ wf C = false.
 Proof.
   exists (mkCrs 3 [[(2, s0)]; []]). eexists. split; [reflexivity|]. split; reflexivity.
 Qed.
@@ -1793,9 +1808,827 @@ End PwCopy.
 End PwCopy.
 Local Open Scope S_scope.
 
+(* pointwise_matrix, CURRENT code (after /repo 2f75975): counting pass = fill pass, fuel, wf *)
+Module PwNew.
+Local Close Scope S_scope.
+Section PwNew.
+Context {S : Scalar}.
+Local Notation vec := (vec S).
+Local Notation row := (row S).
+Local Notation crs := (crs S).
+
+Local Notation total := PwCopy.total.
+Local Notation cur_lt := PwCopy.cur_lt.
+Local Notation ent_lt := PwCopy.ent_lt.
+Local Notation rows_lt := PwCopy.rows_lt.
+
+(* ================================================================== *)
+(* N1: counting pass = fill pass                                       *)
+
+Lemma pwc_scan_row_eq ce (r : row) cur acc :
+  pwc_scan_row ce (map fst r) cur =
+  (map fst (fst (fst (pw_scan_row ce r cur acc))), snd (fst (pw_scan_row ce r cur acc))).
+Proof.
+  revert acc; induction r as [|[c v] tl IH]; intro acc; simpl; [reflexivity|].
+  destruct (Nat.leb ce c); simpl; [reflexivity|]. apply IH.
+Qed.
+
+Lemma pwc_pass_eq ce (js : list row) cur acc :
+  pwc_pass ce (map (map fst) js) cur =
+  (map (map fst) (fst (fst (pw_pass ce js cur acc))), snd (fst (pw_pass ce js cur acc))).
+Proof.
+  revert cur acc; induction js as [|r rest IH]; intros cur acc; simpl; [reflexivity|].
+  rewrite (pwc_scan_row_eq ce r cur acc).
+  destruct (pw_scan_row ce r cur acc) as [[r' cur1] acc1]; simpl.
+  rewrite (IH cur1 acc1).
+  destruct (pw_pass ce rest cur1 acc1) as [[rest' cur2] acc2]; simpl. reflexivity.
+Qed.
+
+Lemma pwc_loop_eq fuel bs cur (js : list row) :
+  pwc_loop fuel bs cur (map (map fst) js) = length (pw_loop fuel bs cur js).
+Proof.
+  revert cur js; induction fuel as [|f IH]; intros cur js; simpl; [reflexivity|].
+  destruct cur as [c0|]; [|reflexivity].
+  rewrite (pwc_pass_eq _ js None None).
+  destruct (pw_pass ((c0 / bs + 1) * bs) js None None) as [[js' cur'] acc]; simpl.
+  rewrite IH. reflexivity.
+Qed.
+
+Lemma pw_block_count_eq bs (js : list row) :
+  pw_block_count bs js = length (pw_block_row bs js).
+Proof. unfold pw_block_count, pw_block_row. apply pwc_loop_eq. Qed.
+
+Theorem pointwise_counts_correct (A C : crs) bs :
+  pointwise_matrix A bs = Some C ->
+  pointwise_counts A bs = map (@length _) (rows C).
+Proof.
+  unfold pointwise_matrix, pointwise_counts.
+  destruct (Nat.eqb bs 0); [discriminate|].
+  destruct (negb (Nat.eqb (nrows A / bs * bs) (nrows A))); [discriminate|].
+  intro H; injection H as <-. simpl. rewrite map_map.
+  apply map_ext. intro js. apply pw_block_count_eq.
+Qed.
+
+(* ================================================================== *)
+(* N2: the fuel is never exhausted (all inputs, also unsorted rows)    *)
+
+(* the invariant of the while(!done) loop: cur_col is the head column of some row *)
+Definition headed (cur : option nat) (js : list row) : Prop :=
+  forall c, cur = Some c -> exists v tl, In ((c, v) :: tl) js.
+
+Lemma headed_None (js : list row) : headed None js.
+Proof. intros c H; discriminate. Qed.
+
+Lemma upd_cur_cases cur c x :
+  upd_cur cur c = Some x -> x = c \/ cur = Some x.
+Proof.
+  destruct cur as [c0|]; simpl; intro H; injection H as <-; [|left; reflexivity].
+  destruct (Nat.min_spec c0 c) as [[_ ->]|[_ ->]]; [right|left]; reflexivity.
+Qed.
+
+(* pw_init: generalized over the start value of the fold *)
+Lemma pw_init_fold_headed (js : list row) cur x :
+  fold_left (fun cur r => match r with [] => cur | e :: _ => upd_cur cur (fst e) end) js cur
+    = Some x ->
+  cur = Some x \/ exists v tl, In ((x, v) :: tl) js.
+Proof.
+  revert cur; induction js as [|r t IH]; intros cur; simpl; [auto|].
+  intro H. apply IH in H. destruct H as [H|[v [tl H]]].
+  - destruct r as [|[c w] tl]; [left; exact H|].
+    simpl in H. apply upd_cur_cases in H. destruct H as [->|H]; [|left; exact H].
+    right. exists w, tl. left; reflexivity.
+  - right. exists v, tl. right; exact H.
+Qed.
+
+Lemma pw_init_headed (js : list row) : headed (pw_init js) js.
+Proof.
+  intros c H. apply pw_init_fold_headed in H. destruct H as [H|H]; [discriminate|exact H].
+Qed.
+
+(* one row: the rest is never longer; an entry below col_end at the head is consumed *)
+Lemma pw_scan_row_length ce (r : row) cur acc r' cur' acc' :
+  pw_scan_row ce r cur acc = (r', cur', acc') -> length r' <= length r.
+Proof.
+  revert acc; induction r as [|[c v] tl IH]; intro acc; simpl.
+  - intro H; injection H as <- <- <-. simpl. auto.
+  - destruct (Nat.leb ce c).
+    + intro H; injection H as <- <- <-. simpl. lia.
+    + intro H. apply IH in H. lia.
+Qed.
+
+Lemma pw_scan_row_head_lt ce c v (tl : row) cur acc r' cur' acc' :
+  c < ce ->
+  pw_scan_row ce ((c, v) :: tl) cur acc = (r', cur', acc') ->
+  length r' < length ((c, v) :: tl).
+Proof.
+  intros Hc. simpl. destruct (Nat.leb_spec ce c) as [L|L]; [lia|].
+  intro H. apply pw_scan_row_length in H. lia.
+Qed.
+
+(* one row: if [cur] is set afterwards, it was set before or it is the head of the rest *)
+Lemma pw_scan_row_headed ce (r : row) cur acc r' cur' acc' x :
+  pw_scan_row ce r cur acc = (r', cur', acc') ->
+  cur' = Some x -> cur = Some x \/ exists v tl, r' = (x, v) :: tl.
+Proof.
+  revert acc; induction r as [|[c v] tl IH]; intro acc; simpl.
+  - intro H; injection H as <- <- <-. auto.
+  - destruct (Nat.leb ce c).
+    + intro H; injection H as <- <- <-. intro Hx. apply upd_cur_cases in Hx.
+      destruct Hx as [->|Hx]; [|left; exact Hx]. right. exists v, tl. reflexivity.
+    + apply IH.
+Qed.
+
+Lemma pw_pass_total_le' ce (js : list row) cur acc js' cur' acc' :
+  pw_pass ce js cur acc = (js', cur', acc') -> total js' <= total js.
+Proof.
+  revert cur acc js' cur' acc'; induction js as [|r rest IH]; intros cur acc js' cur' acc'; simpl.
+  - intro H; injection H as <- <- <-. auto.
+  - destruct (pw_scan_row ce r cur acc) as [[r1 cur1] acc1] eqn:E1.
+    destruct (pw_pass ce rest cur1 acc1) as [[rest1 cur2] acc2] eqn:E2.
+    intro H; injection H as <- <- <-.
+    apply pw_scan_row_length in E1. apply IH in E2.
+    rewrite !(PwCopy.total_cons (X:=nat * S)). lia.
+Qed.
+
+Lemma pw_pass_total_le ce (js : list row) cur acc :
+  total (fst (fst (pw_pass ce js cur acc))) <= total js.
+Proof.
+  destruct (pw_pass ce js cur acc) as [[js' cur'] acc'] eqn:E.
+  apply pw_pass_total_le' in E. simpl. exact E.
+Qed.
+
+(* a row whose head is below col_end makes the pass strictly decrease [total] *)
+Lemma pw_pass_total_lt ce (js : list row) cur acc js' cur' acc' c v tl :
+  In ((c, v) :: tl) js -> c < ce ->
+  pw_pass ce js cur acc = (js', cur', acc') -> total js' < total js.
+Proof.
+  intros Hin Hc.
+  revert cur acc js' cur' acc' Hin; induction js as [|r rest IH];
+    intros cur acc js' cur' acc' Hin; simpl; [destruct Hin|].
+  destruct (pw_scan_row ce r cur acc) as [[r1 cur1] acc1] eqn:E1.
+  destruct (pw_pass ce rest cur1 acc1) as [[rest1 cur2] acc2] eqn:E2.
+  intro H; injection H as <- <- <-.
+  rewrite !(PwCopy.total_cons (X:=nat * S)).
+  destruct Hin as [->|Hin].
+  - apply (pw_scan_row_head_lt ce c v tl) in E1; [|exact Hc].
+    apply pw_pass_total_le' in E2. lia.
+  - apply pw_scan_row_length in E1. apply IH in E2; [|exact Hin]. lia.
+Qed.
+
+(* the pass re-establishes the invariant *)
+Lemma pw_pass_headed' ce (js : list row) cur acc js' cur' acc' x :
+  pw_pass ce js cur acc = (js', cur', acc') ->
+  cur' = Some x -> cur = Some x \/ exists v tl, In ((x, v) :: tl) js'.
+Proof.
+  revert cur acc js' cur' acc'; induction js as [|r rest IH]; intros cur acc js' cur' acc'; simpl.
+  - intro H; injection H as <- <- <-. auto.
+  - destruct (pw_scan_row ce r cur acc) as [[r1 cur1] acc1] eqn:E1.
+    destruct (pw_pass ce rest cur1 acc1) as [[rest1 cur2] acc2] eqn:E2.
+    intro H; injection H as <- <- <-. intro Hx.
+    destruct (IH _ _ _ _ _ E2 Hx) as [H1|[v [tl H1]]].
+    + destruct (pw_scan_row_headed _ _ _ _ _ _ _ _ E1 H1) as [H0|[v [tl H0]]].
+      * left; exact H0.
+      * right. exists v, tl. left. exact H0.
+    + right. exists v, tl. right. exact H1.
+Qed.
+
+Lemma pw_pass_headed ce (js : list row) acc js' cur' acc' :
+  pw_pass ce js None acc = (js', cur', acc') -> headed cur' js'.
+Proof.
+  intros E x Hx. destruct (pw_pass_headed' _ _ _ _ _ _ _ _ E Hx) as [H|H];
+    [discriminate|exact H].
+Qed.
+
+Lemma col_end_gt c0 bs : 0 < bs -> c0 < (c0 / bs + 1) * bs.
+Proof.
+  intro Hbs. pose proof (Nat.div_mod c0 bs ltac:(lia)) as E.
+  pose proof (Nat.mod_upper_bound c0 bs ltac:(lia)) as U. nia.
+Qed.
+
+(* one iteration of the while loop: strict decrease + invariant *)
+Lemma pw_iter_step bs c0 (js : list row) js' cur' acc :
+  0 < bs -> headed (Some c0) js ->
+  pw_pass ((c0 / bs + 1) * bs) js None None = (js', cur', acc) ->
+  total js' < total js /\ headed cur' js'.
+Proof.
+  intros Hbs Hh E. split; [|exact (pw_pass_headed _ _ _ _ _ _ E)].
+  destruct (Hh c0 eq_refl) as [v [tl Hin]].
+  exact (pw_pass_total_lt _ _ _ _ _ _ _ _ _ _ Hin (col_end_gt c0 bs Hbs) E).
+Qed.
+
+Lemma pw_loop_None fuel bs (js : list row) : pw_loop fuel bs None js = [].
+Proof. destruct fuel; reflexivity. Qed.
+
+Theorem pw_loop_fuel_indep fuel k bs cur (js : list row) :
+  0 < bs -> headed cur js ->
+  total js < fuel -> pw_loop fuel bs cur js = pw_loop (fuel + k) bs cur js.
+Proof.
+  intro Hbs. revert cur js; induction fuel as [|f IH]; intros cur js Hh Hlt; [lia|].
+  simpl. destruct cur as [c0|]; [|reflexivity].
+  destruct (pw_pass ((c0 / bs + 1) * bs) js None None) as [[js' cur'] acc] eqn:E.
+  destruct (pw_iter_step _ _ _ _ _ _ Hbs Hh E) as [Hd Hh'].
+  f_equal. apply IH; [exact Hh'|lia].
+Qed.
+
+(* the form of the invariant asked for in the task statement *)
+Corollary pw_loop_fuel_indep' fuel k bs cur (js : list row) :
+  0 < bs -> (forall c, cur = Some c -> exists v tl, In ((c, v) :: tl) js) ->
+  total js < fuel -> pw_loop fuel bs cur js = pw_loop (fuel + k) bs cur js.
+Proof. exact (pw_loop_fuel_indep fuel k bs cur js). Qed.
+
+(* any two sufficient fuels agree *)
+Corollary pw_loop_fuel_any f1 f2 bs cur (js : list row) :
+  0 < bs -> headed cur js ->
+  total js < f1 -> total js < f2 -> pw_loop f1 bs cur js = pw_loop f2 bs cur js.
+Proof.
+  intros Hbs Hh H1 H2. destruct (Nat.le_ge_cases f1 f2) as [L|L].
+  - replace f2 with (f1 + (f2 - f1)) by lia. apply pw_loop_fuel_indep; assumption.
+  - replace f1 with (f2 + (f1 - f2)) by lia. symmetry. apply pw_loop_fuel_indep; assumption.
+Qed.
+
+Corollary pw_block_row_fuel bs (js : list row) k :
+  0 < bs -> pw_block_row bs js = pw_loop (pw_fuel js + k) bs (pw_init js) js.
+Proof.
+  intro Hbs. unfold pw_block_row. apply pw_loop_fuel_indep;
+    [exact Hbs|apply pw_init_headed|]. rewrite PwCopy.pw_fuel_total. lia.
+Qed.
+
+(* the loop stops because [done] holds: with sufficient fuel, the unrolling equation
+   of the C++ while loop holds without any fuel bookkeeping *)
+Corollary pw_loop_unroll fuel bs c0 (js : list row) :
+  0 < bs -> headed (Some c0) js ->
+  total js < fuel ->
+  pw_loop fuel bs (Some c0) js =
+  let '(js', cur', acc) := pw_pass ((c0 / bs + 1) * bs) js None None in
+  (c0 / bs, match acc with None => s0 | Some m => m end) :: pw_loop fuel bs cur' js'.
+Proof.
+  intros Hbs Hh Hlt. destruct fuel as [|f]; [lia|].
+  change (pw_loop (Datatypes.S f) bs (Some c0) js) with
+    (let '(js', cur', acc) := pw_pass ((c0 / bs + 1) * bs) js None None in
+     (c0 / bs, match acc with None => s0 | Some m => m end) :: pw_loop f bs cur' js').
+  destruct (pw_pass ((c0 / bs + 1) * bs) js None None) as [[js' cur'] acc] eqn:E.
+  destruct (pw_iter_step _ _ _ _ _ _ Hbs Hh E) as [Hd Hh'].
+  f_equal. apply pw_loop_fuel_any; [exact Hbs|exact Hh'|lia|lia].
+Qed.
+
+(* the block row as the unrolled loop started from pw_init *)
+Corollary pw_block_row_unroll bs (js : list row) :
+  0 < bs ->
+  pw_block_row bs js =
+  match pw_init js with
+  | None => []
+  | Some c0 =>
+    let '(js', cur', acc) := pw_pass ((c0 / bs + 1) * bs) js None None in
+    (c0 / bs, match acc with None => s0 | Some m => m end) :: pw_loop (pw_fuel js) bs cur' js'
+  end.
+Proof.
+  intro Hbs. unfold pw_block_row. pose proof (pw_init_headed js) as Hh.
+  destruct (pw_init js) as [c0|]; [|apply pw_loop_None].
+  apply pw_loop_unroll; [exact Hbs|exact Hh|]. rewrite PwCopy.pw_fuel_total. lia.
+Qed.
+
+(* ================================================================== *)
+(* N3: well-formedness of the pointwise matrix                         *)
+
+Lemma pw_scan_row_lt m ce (r : row) cur acc r' cur' acc' :
+  Forall (ent_lt m) r -> cur_lt m cur ->
+  pw_scan_row ce r cur acc = (r', cur', acc') ->
+  Forall (ent_lt m) r' /\ cur_lt m cur'.
+Proof.
+  revert acc; induction r as [|[c v] tl IH]; intros acc Hr Hc; simpl.
+  - intro H; injection H as <- <- <-. auto.
+  - inversion Hr as [|? ? He Ht]; subst.
+    destruct (Nat.leb ce c).
+    + intro H; injection H as <- <- <-. split; [assumption|].
+      apply PwCopy.upd_cur_lt; assumption.
+    + apply IH; assumption.
+Qed.
+
+Lemma pw_pass_lt m ce (js : list row) cur acc js' cur' acc' :
+  rows_lt m js -> cur_lt m cur ->
+  pw_pass ce js cur acc = (js', cur', acc') ->
+  rows_lt m js' /\ cur_lt m cur'.
+Proof.
+  revert cur acc js' cur' acc'; induction js as [|r rest IH];
+    intros cur acc js' cur' acc' Hj Hc; simpl.
+  - intro H; injection H as <- <- <-. auto.
+  - inversion Hj as [|? ? Hr Ht]; subst.
+    destruct (pw_scan_row ce r cur acc) as [[r1 cur1] acc1] eqn:E1.
+    destruct (pw_pass ce rest cur1 acc1) as [[rest1 cur2] acc2] eqn:E2.
+    intro H; injection H as <- <- <-.
+    apply (pw_scan_row_lt m) in E1; [|assumption|assumption]. destruct E1 as [Hr1 Hc1].
+    apply IH in E2; [|assumption|assumption]. destruct E2 as [Ht1 Hc2].
+    split; [constructor; assumption|assumption].
+Qed.
+
+Lemma pw_loop_lt fuel bs m cur (js : list row) :
+  0 < bs -> m = (m / bs) * bs ->
+  rows_lt m js -> cur_lt m cur ->
+  Forall (ent_lt (m / bs)) (pw_loop fuel bs cur js).
+Proof.
+  intros Hbs Hdiv. revert cur js; induction fuel as [|f IH]; intros cur js Hj Hc; simpl;
+    [constructor|].
+  destruct cur as [c0|]; [|constructor].
+  destruct (pw_pass ((c0 / bs + 1) * bs) js None None) as [[js' cur'] acc] eqn:E.
+  apply (pw_pass_lt m) in E; [|assumption|exact I]. destruct E as [Hj' Hc'].
+  constructor; [|apply IH; assumption].
+  unfold PwCopy.ent_lt; simpl. simpl in Hc.
+  apply Nat.div_lt_upper_bound; lia.
+Qed.
+
+Lemma pw_block_row_lt bs m (js : list row) :
+  0 < bs -> m = (m / bs) * bs -> rows_lt m js ->
+  row_wf (m / bs) (pw_block_row bs js) = true.
+Proof.
+  intros Hbs Hdiv Hj. apply (proj2 (row_wf_iff _ _)). unfold pw_block_row.
+  apply pw_loop_lt; [assumption|assumption|assumption|]. apply PwCopy.pw_init_lt; assumption.
+Qed.
+
+Theorem pointwise_matrix_wf (A C : crs) bs :
+  wf A = true -> 0 < bs -> ncols A = (ncols A / bs) * bs ->
+  pointwise_matrix A bs = Some C ->
+  wf C = true /\ nrows C = nrows A / bs /\ ncols C = ncols A / bs.
+Proof.
+  intros Hwf Hbs Hdiv. unfold pointwise_matrix.
+  destruct (Nat.eqb bs 0); [discriminate|].
+  destruct (negb (Nat.eqb (nrows A / bs * bs) (nrows A))); [discriminate|].
+  intro H; injection H as <-. unfold wf, nrows; simpl.
+  rewrite map_length, PwCopy.groups_length. split; [|split; reflexivity].
+  apply forallb_forall. intros r Hr. apply in_map_iff in Hr. destruct Hr as [js [<- Hin]].
+  apply pw_block_row_lt; [assumption|assumption|].
+  pose proof (PwCopy.groups_Forall _ (nrows A / bs) bs _ (PwCopy.wf_rows_lt A Hwf)) as HG.
+  rewrite Forall_forall in HG. apply HG. exact Hin.
+Qed.
+
+(* the precondition of the C++ (rows divisible) as an iff *)
+Lemma pointwise_matrix_some (A : crs) bs :
+  (exists C, pointwise_matrix A bs = Some C) <-> (bs <> 0 /\ nrows A / bs * bs = nrows A).
+Proof.
+  unfold pointwise_matrix. split.
+  - intros [C H]. destruct (Nat.eqb bs 0) eqn:E0; [discriminate|].
+    destruct (Nat.eqb (nrows A / bs * bs) (nrows A)) eqn:E1; [|discriminate].
+    apply Nat.eqb_neq in E0. apply Nat.eqb_eq in E1. auto.
+  - intros [H0 H1]. apply Nat.eqb_neq in H0. apply Nat.eqb_eq in H1. rewrite H0, H1. simpl.
+    eexists; reflexivity.
+Qed.
+
+(* the divisibility of ncols is needed: the C++ only checks the rows.  3 columns,
+   block size 2: the entry in column 2 produces block column 1 >= mp = 3/2 = 1. *)
+Lemma pointwise_matrix_wf_needs_div :
+  exists (A C : crs), wf A = true /\ pointwise_matrix A 2 = Some C /\ wf C = false.
+Proof.
+  exists (mkCrs 3 [[(2, s0)]; []]). eexists. split; [reflexivity|]. split; reflexivity.
+Qed.
+
+End PwNew.
+
+Print Assumptions pointwise_counts_correct.
+Print Assumptions pw_block_row_fuel.
+Print Assumptions pw_loop_unroll.
+Print Assumptions pointwise_matrix_wf.
+Print Assumptions pointwise_matrix_wf_needs_div.
+
+End PwNew.
+Local Open Scope S_scope.
+
+(* pointwise_matrix, CURRENT code: the scan IS the block maximum on row-sorted input *)
+Module PwSpec.
+Local Close Scope S_scope.
+Section PwSpec.
+Context {S : Scalar}.
+Local Notation row := (row S).
+Local Notation crs := (crs S).
+
 (* ------------------------------------------------------------------ *)
-(* pointwise_matrix: the specification "entry (I,J) = largest norm in block (I,J),
-   pattern = non-empty blocks" is violated by the scan as coded.                *)
+(* boolean sortedness -> StronglySorted                                *)
+
+Lemma sorted_weak_SS (r : row) : sorted_weak r = true -> StronglySorted lec r.
+Proof.
+  induction r as [|e1 tl IH]; intro H; [constructor|].
+  destruct tl as [|e2 tl'].
+  - constructor; constructor.
+  - change (sorted_weak (e1 :: e2 :: tl'))
+      with (Nat.leb (fst e1) (fst e2) && sorted_weak (e2 :: tl'))%bool in H.
+    apply andb_true_iff in H. destruct H as [H1 H2]. apply Nat.leb_le in H1.
+    specialize (IH H2). constructor; [exact IH|].
+    constructor; [exact H1|]. inversion IH as [|? ? _ Hall]; subst.
+    eapply Forall_impl; [|exact Hall]. intros x Hx. unfold lec in *. lia.
+Qed.
+
+(* ------------------------------------------------------------------ *)
+(* generic list helpers                                                *)
+
+Lemma filter_nil' {X} (p : X -> bool) (l : list X) :
+  Forall (fun x => p x = false) l -> filter p l = [].
+Proof. induction 1 as [|x l Hx _ IH]; simpl; [reflexivity|]. rewrite Hx. exact IH. Qed.
+
+Lemma flat_map_ext_Forall {A B} (f g : A -> list B) (l : list A) :
+  Forall (fun x => f x = g x) l -> flat_map f l = flat_map g l.
+Proof. induction 1 as [|x l Hx _ IH]; simpl; [reflexivity|]. rewrite Hx, IH. reflexivity. Qed.
+
+(* ------------------------------------------------------------------ *)
+(* structural characterisation of one scan / one pass (no sortedness)  *)
+
+Definition hd_upd (cur : option nat) (r : row) : option nat :=
+  match r with [] => cur | e :: _ => upd_cur cur (fst e) end.
+
+Lemma pw_init_eq (js : list row) : pw_init js = fold_left hd_upd js None.
+Proof. reflexivity. Qed.
+
+(* consumed prefix / remaining suffix of a row for a given col_end *)
+Fixpoint tk (ce : nat) (r : row) : row :=
+  match r with
+  | [] => []
+  | e :: tl => if Nat.leb ce (fst e) then [] else e :: tk ce tl
+  end.
+Fixpoint dr (ce : nat) (r : row) : row :=
+  match r with
+  | [] => []
+  | e :: tl => if Nat.leb ce (fst e) then e :: tl else dr ce tl
+  end.
+
+Definition nrm (e : nat * S) : S := sabs (snd e).
+Definition accstep (a : option S) (x : S) : option S :=
+  Some (match a with None => x | Some m => smax m x end).
+Definition accf (acc : option S) (l : list S) : option S := fold_left accstep l acc.
+
+Lemma scan_char ce (r : row) cur acc :
+  pw_scan_row ce r cur acc = (dr ce r, hd_upd cur (dr ce r), accf acc (map nrm (tk ce r))).
+Proof.
+  revert acc. induction r as [|[c v] tl IH]; intro acc; simpl; [reflexivity|].
+  destruct (Nat.leb ce c); simpl; [reflexivity|]. rewrite IH. reflexivity.
+Qed.
+
+Lemma pass_char ce (js : list row) cur acc :
+  pw_pass ce js cur acc =
+  (map (dr ce) js, fold_left hd_upd (map (dr ce) js) cur,
+   accf acc (flat_map (fun r => map nrm (tk ce r)) js)).
+Proof.
+  revert cur acc; induction js as [|r rest IH]; intros cur acc; simpl; [reflexivity|].
+  rewrite scan_char, IH. unfold accf. rewrite fold_left_app. reflexivity.
+Qed.
+
+Lemma accf_some (x : S) (l : list S) : accf (Some x) l = Some (fold_left smax l x).
+Proof.
+  revert x; induction l as [|a l IH]; intro x; [reflexivity|].
+  exact (IH (smax x a)).
+Qed.
+
+Lemma accf_none (l : list S) : accf None l = max_list l.
+Proof. destruct l as [|x tl]; [reflexivity|]. exact (accf_some x tl). Qed.
+
+Lemma pw_loop_S f bs c0 (js : list row) :
+  pw_loop (Datatypes.S f) bs (Some c0) js =
+  (c0 / bs,
+   match accf None (flat_map (fun r => map nrm (tk ((c0 / bs + 1) * bs) r)) js) with
+   | None => s0 | Some m => m end)
+  :: pw_loop f bs (pw_init (map (dr ((c0 / bs + 1) * bs)) js)) (map (dr ((c0 / bs + 1) * bs)) js).
+Proof.
+  change (pw_loop (Datatypes.S f) bs (Some c0) js) with
+    (let '(js', cur', acc) := pw_pass ((c0 / bs + 1) * bs) js None None in
+     (c0 / bs, match acc with None => s0 | Some m => m end) :: pw_loop f bs cur' js').
+  rewrite pass_char. reflexivity.
+Qed.
+
+(* ------------------------------------------------------------------ *)
+(* pw_init: None iff all rows empty; Some c0 = attained minimum of the heads *)
+
+Lemma init_none (js : list row) cur :
+  fold_left hd_upd js cur = None -> cur = None /\ Forall (fun r => r = []) js.
+Proof.
+  revert cur; induction js as [|r t IH]; intros cur H; simpl in H; [split; [exact H|constructor]|].
+  apply IH in H. destruct H as [Hc Ht]. destruct r as [|e tl].
+  - split; [exact Hc|constructor; [reflexivity|exact Ht]].
+  - simpl in Hc. destruct cur; discriminate.
+Qed.
+
+Definition head_ge (c0 : nat) (r : row) : Prop :=
+  match r with [] => True | e :: _ => c0 <= fst e end.
+Definition head_is (c0 : nat) (r : row) : Prop :=
+  match r with [] => False | e :: _ => fst e = c0 end.
+Definition cur_ge (c0 : nat) (cur : option nat) : Prop :=
+  match cur with None => True | Some c => c0 <= c end.
+
+Lemma init_some (js : list row) cur c0 :
+  fold_left hd_upd js cur = Some c0 ->
+  Forall (head_ge c0) js /\ cur_ge c0 cur /\ (cur = Some c0 \/ Exists (head_is c0) js).
+Proof.
+  revert cur; induction js as [|r t IH]; intros cur H; simpl in H.
+  - subst cur. split; [constructor|]. split; [simpl; lia|left; reflexivity].
+  - apply IH in H. destruct H as (Ht & Hc & Hd). destruct r as [|e tl].
+    + simpl in Hc, Hd. split; [constructor; [exact I|exact Ht]|]. split; [exact Hc|].
+      destruct Hd as [Hd|Hd]; [left; exact Hd|right; apply Exists_cons_tl; exact Hd].
+    + simpl in Hc, Hd. destruct cur as [c|]; simpl in Hc, Hd.
+      * split; [constructor; [simpl; lia|exact Ht]|]. split; [simpl; lia|].
+        destruct Hd as [Hd|Hd]; [|right; apply Exists_cons_tl; exact Hd].
+        injection Hd as Hd.
+        destruct (Nat.eq_dec c c0) as [->|Hne]; [left; reflexivity|].
+        right. apply Exists_cons_hd. simpl. lia.
+      * split; [constructor; [simpl; lia|exact Ht]|]. split; [exact I|].
+        destruct Hd as [Hd|Hd]; [|right; apply Exists_cons_tl; exact Hd].
+        injection Hd as Hd. right. apply Exists_cons_hd. simpl. exact Hd.
+Qed.
+
+(* ------------------------------------------------------------------ *)
+(* arithmetic: the col_end test in terms of block-column indices        *)
+
+Lemma leb_div bs J c : 0 < bs -> Nat.leb ((J + 1) * bs) c = Nat.leb (J + 1) (c / bs).
+Proof.
+  intro H. destruct (Nat.leb_spec ((J + 1) * bs) c) as [L|L]; symmetry.
+  - apply Nat.leb_le. apply Nat.div_le_lower_bound; [lia|]. rewrite Nat.mul_comm. exact L.
+  - apply Nat.leb_gt. apply Nat.div_lt_upper_bound; [lia|]. rewrite Nat.mul_comm. exact L.
+Qed.
+
+Lemma div_mono bs a b : 0 < bs -> a <= b -> a / bs <= b / bs.
+Proof. intros H L. apply Nat.div_le_mono; [lia|exact L]. Qed.
+
+(* ------------------------------------------------------------------ *)
+(* per-row facts, for a col_end [ce] that separates block column J from J+1 *)
+
+Section Row.
+Context (bs J ce : nat) (Hbs : 0 < bs)
+        (Hce : forall c, Nat.leb ce c = Nat.leb (J + 1) (c / bs)).
+
+Lemma tk_filter (r : row) :
+  StronglySorted lec r -> Forall (fun e => J <= fst e / bs) r ->
+  tk ce r = filter (fun e => Nat.eqb (fst e / bs) J) r.
+Proof using All.
+  intro Hs. induction Hs as [|e tl Hs IH Hall]; intro HJ; simpl; [reflexivity|].
+  inversion HJ as [|? ? He Ht]; subst. rewrite Hce.
+  destruct (Nat.leb_spec (J + 1) (fst e / bs)) as [L|L].
+  - replace (fst e / bs =? J) with false by (symmetry; apply Nat.eqb_neq; lia).
+    symmetry. apply filter_nil'. eapply Forall_impl; [|exact Hall]. intros x Hx.
+    apply Nat.eqb_neq. unfold lec in Hx.
+    assert (fst e / bs <= fst x / bs) by (apply div_mono; assumption). lia.
+  - replace (fst e / bs =? J) with true by (symmetry; apply Nat.eqb_eq; lia).
+    f_equal. apply IH, Ht.
+Qed.
+
+Lemma dr_filter J' (r : row) :
+  J < J' ->
+  filter (fun e => Nat.eqb (fst e / bs) J') (dr ce r) = filter (fun e => Nat.eqb (fst e / bs) J') r.
+Proof using All.
+  intro HJ. induction r as [|e tl IH]; [reflexivity|].
+  change (dr ce (e :: tl)) with (if Nat.leb ce (fst e) then e :: tl else dr ce tl).
+  rewrite Hce. destruct (Nat.leb_spec (J + 1) (fst e / bs)) as [L|L]; [reflexivity|].
+  rewrite IH. simpl.
+  replace (fst e / bs =? J') with false by (symmetry; apply Nat.eqb_neq; lia). reflexivity.
+Qed.
+
+Lemma dr_SS (r : row) : StronglySorted lec r -> StronglySorted lec (dr ce r).
+Proof using All.
+  induction 1 as [|e tl Hs IH Hall]; simpl; [constructor|].
+  destruct (Nat.leb ce (fst e)); [constructor; assumption|exact IH].
+Qed.
+
+Lemma dr_Forall (P : nat * S -> Prop) (r : row) : Forall P r -> Forall P (dr ce r).
+Proof using All.
+  induction 1 as [|e tl He Ht IH]; simpl; [constructor|].
+  destruct (Nat.leb ce (fst e)); [constructor; assumption|exact IH].
+Qed.
+
+Lemma dr_ge (r : row) :
+  StronglySorted lec r -> Forall (fun e => J + 1 <= fst e / bs) (dr ce r).
+Proof using All.
+  induction 1 as [|e tl Hs IH Hall]; simpl; [constructor|].
+  destruct (Nat.leb ce (fst e)) eqn:E; [|exact IH].
+  rewrite Hce in E. apply Nat.leb_le in E. constructor; [exact E|].
+  eapply Forall_impl; [|exact Hall]. intros x Hx. unfold lec in Hx.
+  assert (fst e / bs <= fst x / bs) by (apply div_mono; assumption). lia.
+Qed.
+
+Lemma dr_len (r : row) : length (dr ce r) <= length r.
+Proof using All.
+  induction r as [|e tl IH]; simpl; [lia|].
+  destruct (Nat.leb ce (fst e)); simpl; lia.
+Qed.
+
+Lemma total_dr_le (js : list row) : PwCopy.total (map (dr ce) js) <= PwCopy.total js.
+Proof using All.
+  induction js as [|r t IH]; simpl map; [lia|].
+  rewrite !(PwCopy.total_cons (X:=nat * S)). pose proof (dr_len r). lia.
+Qed.
+
+Lemma total_dr_lt (js : list row) :
+  Exists (fun r => match r with [] => False | e :: _ => fst e / bs <= J end) js ->
+  PwCopy.total (map (dr ce) js) < PwCopy.total js.
+Proof using All.
+  induction 1 as [r t Hr|r t Ht IH]; simpl map; rewrite !(PwCopy.total_cons (X:=nat * S)).
+  - pose proof (total_dr_le t). destruct r as [|e tl]; [contradiction|].
+    simpl. rewrite Hce.
+    destruct (Nat.leb_spec (J + 1) (fst e / bs)) as [L|L]; [lia|].
+    pose proof (dr_len tl). lia.
+  - pose proof (dr_len r). lia.
+Qed.
+
+End Row.
+
+(* ------------------------------------------------------------------ *)
+(* block_vals / spec_from                                              *)
+
+Lemma block_vals_cons bs J (r : row) (t : list row) :
+  block_vals bs J (r :: t) =
+  map nrm (filter (fun e => Nat.eqb (fst e / bs) J) r) ++ block_vals bs J t.
+Proof. reflexivity. Qed.
+
+Lemma block_vals_nil bs J (js : list row) :
+  Forall (Forall (fun e => fst e / bs <> J)) js -> block_vals bs J js = [].
+Proof.
+  induction 1 as [|r t Hr _ IH]; [reflexivity|].
+  rewrite block_vals_cons, IH, filter_nil'; [reflexivity|].
+  eapply Forall_impl; [|exact Hr]. intros e He. apply Nat.eqb_neq. exact He.
+Qed.
+
+Lemma block_vals_nonempty bs J (js : list row) r e :
+  In r js -> In e r -> fst e / bs = J -> block_vals bs J js <> [].
+Proof.
+  intros Hr He Hq Heq.
+  assert (Hin : In (nrm e) (block_vals bs J js)).
+  { unfold block_vals. apply in_flat_map. exists r. split; [exact Hr|].
+    apply (in_map (fun e => sabs (snd e))). apply filter_In. split; [exact He|].
+    apply Nat.eqb_eq. exact Hq. }
+  rewrite Heq in Hin. exact Hin.
+Qed.
+
+Definition cell bs (js : list row) (J : nat) : row :=
+  match max_list (block_vals bs J js) with None => [] | Some m => [(J, m)] end.
+Definition spec_from bs J0 n (js : list row) : row := flat_map (cell bs js) (seq J0 n).
+
+Lemma pw_spec_row_from bs mp (js : list row) : pw_spec_row bs mp js = spec_from bs 0 mp js.
+Proof. reflexivity. Qed.
+
+Lemma spec_from_app bs J0 a b (js : list row) :
+  spec_from bs J0 (a + b) js = spec_from bs J0 a js ++ spec_from bs (J0 + a) b js.
+Proof. unfold spec_from. rewrite seq_app, flat_map_app. reflexivity. Qed.
+
+Lemma spec_from_S bs J0 n (js : list row) :
+  spec_from bs J0 (Datatypes.S n) js = cell bs js J0 ++ spec_from bs (Datatypes.S J0) n js.
+Proof. reflexivity. Qed.
+
+Lemma spec_from_empty bs n (js : list row) : forall J0,
+  (forall J, J0 <= J < J0 + n -> block_vals bs J js = []) -> spec_from bs J0 n js = [].
+Proof.
+  induction n as [|n IH]; intros J0 H; [reflexivity|].
+  rewrite spec_from_S. unfold cell at 1. rewrite H by lia. simpl.
+  apply IH. intros J HJ. apply H. lia.
+Qed.
+
+Lemma spec_from_ext bs n (js js' : list row) : forall J0,
+  (forall J, J0 <= J < J0 + n -> block_vals bs J js = block_vals bs J js') ->
+  spec_from bs J0 n js = spec_from bs J0 n js'.
+Proof.
+  induction n as [|n IH]; intros J0 H; [reflexivity|].
+  rewrite !spec_from_S. unfold cell. rewrite H by lia. f_equal.
+  apply IH. intros J HJ. apply H. lia.
+Qed.
+
+Lemma block_vals_dr bs J ce J' (js : list row) :
+  0 < bs -> (forall c, Nat.leb ce c = Nat.leb (J + 1) (c / bs)) -> J < J' ->
+  block_vals bs J' (map (dr ce) js) = block_vals bs J' js.
+Proof.
+  intros Hbs Hce HJ. induction js as [|r t IH]; [reflexivity|].
+  simpl map. rewrite !block_vals_cons, IH, (dr_filter bs J ce Hbs Hce J' r HJ). reflexivity.
+Qed.
+
+Lemma block_vals_tk bs J ce (js : list row) :
+  0 < bs -> (forall c, Nat.leb ce c = Nat.leb (J + 1) (c / bs)) ->
+  Forall (StronglySorted lec) js -> Forall (Forall (fun e => J <= fst e / bs)) js ->
+  flat_map (fun r => map nrm (tk ce r)) js = block_vals bs J js.
+Proof.
+  intros Hbs Hce Hs HJ. unfold block_vals. apply flat_map_ext_Forall.
+  rewrite Forall_forall in *. intros r Hr.
+  rewrite (tk_filter bs J ce Hbs Hce r (Hs r Hr) (HJ r Hr)). reflexivity.
+Qed.
+
+(* ------------------------------------------------------------------ *)
+(* the generalised loop theorem                                        *)
+
+Lemma all_ge_head bs c0 (js : list row) :
+  0 < bs -> Forall (StronglySorted lec) js -> Forall (head_ge c0) js ->
+  Forall (Forall (fun e => c0 / bs <= fst e / bs)) js.
+Proof.
+  intros Hbs Hs Hh. rewrite Forall_forall in *. intros r Hr.
+  specialize (Hs r Hr). specialize (Hh r Hr). destruct r as [|e tl]; [constructor|].
+  simpl in Hh. inversion Hs as [|? ? _ Hall]; subst. constructor.
+  - apply div_mono; assumption.
+  - eapply Forall_impl; [|exact Hall]. intros x Hx. unfold lec in Hx. apply div_mono; [assumption|lia].
+Qed.
+
+Lemma loop_spec bs : 0 < bs -> forall fuel (js : list row) J0 n,
+  PwCopy.total js < fuel -> Forall (StronglySorted lec) js ->
+  Forall (Forall (fun e => J0 <= fst e / bs < J0 + n)) js ->
+  pw_loop fuel bs (pw_init js) js = spec_from bs J0 n js.
+Proof.
+  intro Hbs. induction fuel as [|f IH]; intros js J0 n Ht Hs Hr; [lia|].
+  destruct (pw_init js) as [c0|] eqn:Ei.
+  - (* a block column is open: J = c0 / bs *)
+    rewrite pw_init_eq in Ei. apply init_some in Ei.
+    destruct Ei as (Hmin & _ & [Habs|Hex]); [discriminate|].
+    pose proof (all_ge_head bs c0 js Hbs Hs Hmin) as HJ.
+    set (J := c0 / bs) in *.
+    assert (Hce : forall c, Nat.leb ((J + 1) * bs) c = Nat.leb (J + 1) (c / bs))
+      by (intro c; apply leb_div; exact Hbs).
+    (* the row whose head is c0 *)
+    pose proof Hex as Hex'. apply Exists_exists in Hex'.
+    destruct Hex' as (r0 & Hin0 & Hr0). destruct r0 as [|e0 tl0]; [contradiction|].
+    simpl in Hr0.
+    assert (Hq0 : fst e0 / bs = J) by (unfold J; rewrite Hr0; reflexivity).
+    assert (HJr : J0 <= J < J0 + n).
+    { rewrite Forall_forall in Hr. specialize (Hr _ Hin0).
+      inversion Hr as [|? ? He _]; subst. lia. }
+    rewrite pw_loop_S. fold J.
+    set (ce := (J + 1) * bs) in *. set (js2 := map (dr ce) js).
+    rewrite (block_vals_tk bs J ce js Hbs Hce Hs HJ), accf_none.
+    destruct (max_list (block_vals bs J js)) as [m|] eqn:Em.
+    2:{ exfalso. apply (block_vals_nonempty bs J js (e0 :: tl0) e0 Hin0 (or_introl eq_refl) Hq0).
+        destruct (block_vals bs J js); [reflexivity|discriminate]. }
+    (* split the specification at J *)
+    assert (Hsplit : spec_from bs J0 n js =
+                     (J, m) :: spec_from bs (J + 1) (J0 + n - (J + 1)) js2).
+    { replace n with ((J - J0) + (1 + (J0 + n - (J + 1)))) at 1 by lia.
+      rewrite !spec_from_app.
+      rewrite (spec_from_empty bs (J - J0) js J0).
+      2:{ intros J' HJ'. apply block_vals_nil.
+          eapply Forall_impl; [|exact HJ]. intros r Hr'.
+          eapply Forall_impl; [|exact Hr']. intros e He. simpl in He. lia. }
+      replace (J0 + (J - J0)) with J by lia.
+      rewrite spec_from_S. unfold cell at 1. rewrite Em. simpl.
+      f_equal. replace (Datatypes.S J) with (J + 1) by lia.
+      apply spec_from_ext. intros J' HJ'. symmetry.
+      apply (block_vals_dr bs J ce J' js Hbs Hce). lia. }
+    rewrite Hsplit. f_equal.
+    apply IH.
+    + assert (PwCopy.total js2 < PwCopy.total js); [|lia].
+      apply (total_dr_lt bs J ce Hbs Hce).
+      eapply Exists_impl; [|exact Hex]. intros r Hh. destruct r as [|e tl]; [exact Hh|].
+      simpl in Hh. rewrite Hh. fold J. lia.
+    + unfold js2. rewrite Forall_forall in *. intros r' Hr'.
+      apply in_map_iff in Hr'. destruct Hr' as (r & <- & Hin). apply (dr_SS bs J ce Hbs Hce). apply Hs, Hin.
+    + unfold js2. rewrite Forall_forall in *. intros r' Hr'.
+      apply in_map_iff in Hr'. destruct Hr' as (r & <- & Hin).
+      pose proof (dr_ge bs J ce Hbs Hce r (Hs r Hin)) as H1.
+      pose proof (dr_Forall bs J ce Hbs Hce _ r (Hr r Hin)) as H2.
+      rewrite Forall_forall in *. intros e He.
+      specialize (H1 e He). specialize (H2 e He). simpl in H2. lia.
+  - (* done: all rows are empty *)
+    rewrite pw_init_eq in Ei. apply init_none in Ei. destruct Ei as [_ He].
+    simpl. symmetry. apply spec_from_empty. intros J _. apply block_vals_nil.
+    eapply Forall_impl; [|exact He]. intros r ->. constructor.
+Qed.
+
+(* ------------------------------------------------------------------ *)
+(* C08 item 5                                                          *)
+
+Theorem pw_block_row_spec bs mp (js : list row) :
+  0 < bs ->
+  Forall (fun r => sorted_weak r = true) js ->
+  Forall (Forall (fun e => fst e / bs < mp)) js ->
+  pw_block_row bs js = pw_spec_row bs mp js.
+Proof.
+  intros Hbs Hs Hr. unfold pw_block_row. rewrite pw_spec_row_from.
+  apply loop_spec; [exact Hbs|rewrite PwCopy.pw_fuel_total; lia| |].
+  - eapply Forall_impl; [|exact Hs]. intros r. apply sorted_weak_SS.
+  - eapply Forall_impl; [|exact Hr]. intros r H.
+    eapply Forall_impl; [|exact H]. intros e He. simpl in He. lia.
+Qed.
+
+Theorem pointwise_matrix_spec (A : crs) bs :
+  bs <> 0 -> nrows A / bs * bs = nrows A ->
+  Forall (fun r => sorted_weak r = true) (rows A) ->
+  wf A = true -> ncols A = ncols A / bs * bs ->
+  pointwise_matrix A bs = Some (pointwise_spec A bs).
+Proof.
+  intros Hbs Hn Hs Hwf Hm. unfold pointwise_matrix, pointwise_spec.
+  replace (Nat.eqb bs 0) with false by (symmetry; apply Nat.eqb_neq; exact Hbs).
+  replace (Nat.eqb (nrows A / bs * bs) (nrows A)) with true by (symmetry; apply Nat.eqb_eq; exact Hn).
+  simpl negb. cbv iota. f_equal. f_equal.
+  apply map_ext_in. intros js Hjs.
+  set (P := fun r : row => sorted_weak r = true /\ Forall (fun e => fst e / bs < ncols A / bs) r).
+  assert (HP : Forall P (rows A)).
+  { pose proof (PwCopy.wf_rows_lt A Hwf) as Hlt. unfold PwCopy.rows_lt in Hlt.
+    rewrite Forall_forall in *. intros r Hr. split; [apply Hs, Hr|].
+    specialize (Hlt r Hr). eapply Forall_impl; [|exact Hlt]. intros e He.
+    unfold PwCopy.ent_lt in He. apply Nat.div_lt_upper_bound; [exact Hbs|].
+    rewrite Nat.mul_comm, <- Hm. exact He. }
+  pose proof (PwCopy.groups_Forall P (nrows A / bs) bs (rows A) HP) as HG.
+  rewrite Forall_forall in HG. specialize (HG js Hjs).
+  apply pw_block_row_spec; [lia| |].
+  - eapply Forall_impl; [|exact HG]. intros r [H _]. exact H.
+  - eapply Forall_impl; [|exact HG]. intros r [_ H]. exact H.
+Qed.
+
+End PwSpec.
+
+Print Assumptions pw_block_row_spec.
+Print Assumptions pointwise_matrix_spec.
+
+End PwSpec.
+Local Open Scope S_scope.
+
+(* ------------------------------------------------------------------ *)
+(* pointwise_matrix BEFORE /repo commit 2f75975 (definitions *_old): the specification "entry
+   (I,J) = largest norm in block (I,J), pattern = non-empty blocks" was violated by the scan as it
+   was coded then.  The current code satisfies it: PwSpec.pointwise_matrix_spec. *)
 
 (* value lost: A = [1 1] (1 x 2), block size 1.  The entry (0,1) ends the scan of block
    column 0, is consumed there and is missing when block column 1 is reduced. *)
@@ -1813,7 +2646,7 @@ Definition pw_wit3 : crs QcS :=
 Definition qrows_of (A : crs QcS) : list (list (nat * Q)) :=
   map (map (fun e : nat * Qc => (fst e, this (snd e)))) (rows A).
 Definition pw_out (A : crs QcS) (bs : nat) : crs QcS :=
-  match pointwise_matrix A bs with Some C => C | None => mkCrs 0 [] end.
+  match pointwise_matrix_old A bs with Some C => C | None => mkCrs 0 [] end.
 
 Lemma pw_wit1_run :
   qrows_of (pw_out pw_wit1 1) = [[(0%nat, (1#1)%Q); (1%nat, (0#1)%Q)]] /\
@@ -1831,8 +2664,8 @@ Lemma pw_wit3_run :
 Proof. vm_compute. split; reflexivity. Qed.
 
 Lemma pw_out_some (A : crs QcS) bs :
-  (if pointwise_matrix A bs then true else false) = true -> pointwise_matrix A bs = Some (pw_out A bs).
-Proof. unfold pw_out. destruct (pointwise_matrix A bs); [reflexivity|discriminate]. Qed.
+  (if pointwise_matrix_old A bs then true else false) = true -> pointwise_matrix_old A bs = Some (pw_out A bs).
+Proof. unfold pw_out. destruct (pointwise_matrix_old A bs); [reflexivity|discriminate]. Qed.
 
 (* inputs are as benign as they can be: well-formed, rows sorted without duplicates,
    sizes divisible by the block size *)
@@ -1843,9 +2676,9 @@ Definition pw_input_ok (A : crs QcS) (bs : nat) : bool :=
 Lemma crs_eqb_false_neq (C D : crs QcS) : crs_eqb C D = false -> crs_eqb D D = true -> C <> D.
 Proof. intros H1 H2 E. rewrite E in H1. congruence. Qed.
 
-Theorem pointwise_refuted :
+Theorem pointwise_old_refuted :
   exists (A : crs QcS) (bs : nat) (C : crs QcS),
-    pw_input_ok A bs = true /\ pointwise_matrix A bs = Some C /\
+    pw_input_ok A bs = true /\ pointwise_matrix_old A bs = Some C /\
     crs_eqb C (pointwise_spec A bs) = false /\ C <> pointwise_spec A bs.
 Proof.
   exists pw_wit1, 1%nat, (pw_out pw_wit1 1).
@@ -1855,9 +2688,9 @@ Proof.
 Qed.
 
 (* the pattern is wrong as well: a non-empty block is missing from the result *)
-Theorem pointwise_refuted_pattern :
+Theorem pointwise_old_refuted_pattern :
   exists (A : crs QcS) (bs : nat) (C : crs QcS),
-    pw_input_ok A bs = true /\ pointwise_matrix A bs = Some C /\
+    pw_input_ok A bs = true /\ pointwise_matrix_old A bs = Some C /\
     map (map fst) (rows C) <> map (map fst) (rows (pointwise_spec A bs)).
 Proof.
   exists pw_wit2, 2%nat, (pw_out pw_wit2 2).
@@ -1911,325 +2744,3 @@ Proof.
 Qed.
 End PowerMethod.
 
-(* ------------------------------------------------------------------ *)
-(* pointwise_matrix, positive part: on block rows whose stored entries all lie in ONE block
-   column (where no entry can end the scan of a block column) the scan IS the block maximum *)
-Module PwPos.
-Local Close Scope S_scope.
-Section PwPos.
-Context {S : Scalar}.
-Local Notation row := (row S).
-Local Notation crs := (crs S).
-
-(* ------------------------------------------------------------------ *)
-(* auxiliary definitions                                               *)
-
-(* norms of the stored entries of one row / of the block row, in storage order *)
-Definition rvals (r : row) : list S := map (fun e => sabs (snd e)) r.
-Definition jvals (js : list row) : list S := flat_map rvals js.
-
-(* the (first, cur_val) accumulator of the C++ folded over a list of norms *)
-Definition accf (acc : option S) (vals : list S) : option S :=
-  fold_left (fun a v => Some (match a with None => v | Some m => smax m v end)) vals acc.
-
-Lemma accf_app acc l1 l2 : accf acc (l1 ++ l2) = accf (accf acc l1) l2.
-Proof. unfold accf. apply fold_left_app. Qed.
-
-Lemma accf_Some m l : accf (Some m) l = Some (fold_left smax l m).
-Proof. revert m; induction l as [|x tl IH]; intro m; simpl; [reflexivity|]. apply IH. Qed.
-
-Lemma accf_None_cons x tl : accf None (x :: tl) = Some (fold_left smax tl x).
-Proof. simpl. apply accf_Some. Qed.
-
-Lemma accf_None_max_list l : accf None l = max_list l.
-Proof. destruct l as [|x tl]; [reflexivity|]. apply accf_None_cons. Qed.
-
-(* ------------------------------------------------------------------ *)
-(* (2) below col_end the scan never terminates early                   *)
-
-Lemma pw_scan_row_below ce (r : row) cur acc :
-  Forall (fun e => fst e < ce) r ->
-  pw_scan_row ce r cur acc = ([], cur, accf acc (rvals r)).
-Proof.
-  intro H; revert acc; induction H as [|[c v] tl Hc _ IH]; intro acc; simpl; [reflexivity|].
-  simpl in Hc. replace (Nat.leb ce c) with false by lia. apply IH.
-Qed.
-
-Lemma pw_pass_below ce (js : list row) cur acc :
-  Forall (Forall (fun e => fst e < ce)) js ->
-  pw_pass ce js cur acc = (map (fun _ => []) js, cur, accf acc (jvals js)).
-Proof.
-  intro H; revert acc; induction H as [|r rest Hr _ IH]; intro acc; simpl; [reflexivity|].
-  rewrite (pw_scan_row_below _ _ _ _ Hr), IH.
-  unfold jvals. simpl. rewrite accf_app. reflexivity.
-Qed.
-
-Lemma div_eq_lt bs J c : 0 < bs -> c / bs = J -> c < (J + 1) * bs.
-Proof.
-  intros Hbs <-. pose proof (Nat.mul_succ_div_gt c bs ltac:(lia)) as H.
-  rewrite Nat.mul_comm in H. replace (c / bs + 1) with (Datatypes.S (c / bs)) by lia. exact H.
-Qed.
-
-Lemma single_col_below bs J (js : list row) :
-  0 < bs ->
-  Forall (Forall (fun e => Nat.div (fst e) bs = J)) js ->
-  Forall (Forall (fun e => fst e < (J + 1) * bs)) js.
-Proof.
-  intros Hbs H. eapply Forall_impl; [|exact H]. intros r Hr.
-  eapply Forall_impl; [|exact Hr]. intros e He. apply div_eq_lt; assumption.
-Qed.
-
-(* ------------------------------------------------------------------ *)
-(* (1) pw_init                                                         *)
-
-Definition init_step (cur : option nat) (r : row) : option nat :=
-  match r with [] => cur | e :: _ => upd_cur cur (fst e) end.
-
-Lemma pw_init_fold (js : list row) : pw_init js = fold_left init_step js None.
-Proof. reflexivity. Qed.
-
-Definition okcur (bs J : nat) (cur : option nat) : Prop :=
-  match cur with None => True | Some c => c / bs = J end.
-
-Lemma min_cases a b : Nat.min a b = a \/ Nat.min a b = b.
-Proof. lia. Qed.
-
-Lemma init_step_ok bs J cur (r : row) :
-  Forall (fun e => Nat.div (fst e) bs = J) r -> okcur bs J cur -> okcur bs J (init_step cur r).
-Proof.
-  intros Hr Hc. destruct r as [|e tl]; [exact Hc|]. simpl.
-  pose proof (Forall_inv Hr) as He. simpl in He.
-  destruct cur as [c0|]; simpl in *; [|exact He].
-  destruct (min_cases c0 (fst e)) as [-> | ->]; assumption.
-Qed.
-
-Lemma init_fold_ok bs J (js : list row) cur :
-  Forall (Forall (fun e => Nat.div (fst e) bs = J)) js -> okcur bs J cur ->
-  okcur bs J (fold_left init_step js cur).
-Proof.
-  intro H; revert cur; induction H as [|r rest Hr _ IH]; intros cur Hc; simpl; [exact Hc|].
-  apply IH. apply init_step_ok; assumption.
-Qed.
-
-Lemma init_fold_Some (js : list row) c : exists c', fold_left init_step js (Some c) = Some c'.
-Proof.
-  revert c; induction js as [|r rest IH]; intro c; simpl; [eauto|].
-  destruct r as [|e tl]; simpl; apply IH.
-Qed.
-
-Lemma init_fold_nonempty (js : list row) :
-  Exists (fun r => r <> []) js -> exists c, fold_left init_step js None = Some c.
-Proof.
-  induction 1 as [r rest Hr | r rest _ IH]; simpl.
-  - destruct r as [|e tl]; [congruence|]. simpl. apply init_fold_Some.
-  - destruct r as [|e tl]; simpl; [exact IH|apply init_fold_Some].
-Qed.
-
-Lemma pw_init_single bs J (js : list row) :
-  Forall (Forall (fun e => Nat.div (fst e) bs = J)) js ->
-  Exists (fun r => r <> []) js ->
-  exists c, pw_init js = Some c /\ c / bs = J.
-Proof.
-  intros H E. rewrite pw_init_fold.
-  destruct (init_fold_nonempty js E) as [c Hc]. exists c. split; [exact Hc|].
-  pose proof (init_fold_ok bs J js None H I) as Hok. rewrite Hc in Hok. exact Hok.
-Qed.
-
-Lemma pw_init_empty (js : list row) : Forall (fun r => r = []) js -> pw_init js = None.
-Proof.
-  rewrite pw_init_fold. induction 1 as [|r rest -> _ IH]; simpl; [reflexivity|exact IH].
-Qed.
-
-(* ------------------------------------------------------------------ *)
-(* (3) closed form of the model                                        *)
-
-Lemma jvals_nonempty (js : list row) :
-  Exists (fun r => r <> []) js -> exists x tl, jvals js = x :: tl.
-Proof.
-  unfold jvals. induction 1 as [r rest Hr | r rest _ IH]; simpl.
-  - destruct r as [|e tl]; [congruence|]. simpl. eauto.
-  - destruct r as [|e tl]; simpl; [exact IH|eauto].
-Qed.
-
-Lemma pw_block_row_accf bs J (js : list row) :
-  0 < bs ->
-  Forall (Forall (fun e => Nat.div (fst e) bs = J)) js ->
-  Exists (fun r => r <> []) js ->
-  pw_block_row bs js = [(J, match accf None (jvals js) with None => s0 | Some m => m end)].
-Proof.
-  intros Hbs H E.
-  destruct (pw_init_single bs J js H E) as [c [Hc HJ]].
-  unfold pw_block_row. rewrite Hc.
-  rewrite PwCopy.pw_loop_unroll by (rewrite PwCopy.pw_fuel_total; lia).
-  rewrite HJ. rewrite (pw_pass_below _ _ _ _ (single_col_below bs J js Hbs H)).
-  rewrite PwCopy.pw_loop_None. reflexivity.
-Qed.
-
-(* the closed form: [(J, max of the norms in storage order)] *)
-Theorem pw_block_row_single_column_partial bs J (js : list row) :
-  0 < bs ->
-  Forall (Forall (fun e => Nat.div (fst e) bs = J)) js ->
-  Exists (fun r => r <> []) js ->
-  pw_block_row bs js =
-  [(J, fold_left smax (tl (flat_map (map (fun e => sabs (snd e))) js))
-                      (hd s0 (flat_map (map (fun e => sabs (snd e))) js)))].
-Proof.
-  intros Hbs H E. rewrite (pw_block_row_accf bs J js Hbs H E).
-  change (flat_map (map (fun e : nat * S => sabs (snd e))) js) with (jvals js).
-  destruct (jvals_nonempty js E) as [x [tl ->]]. rewrite accf_None_cons. reflexivity.
-Qed.
-
-(* ------------------------------------------------------------------ *)
-(* (4) the specification on the same sub-domain                        *)
-
-Lemma filter_all {X} (p : X -> bool) (l : list X) :
-  Forall (fun x => p x = true) l -> filter p l = l.
-Proof. induction 1 as [|x tl Hx _ IH]; simpl; [reflexivity|]. rewrite Hx, IH. reflexivity. Qed.
-
-Lemma filter_none {X} (p : X -> bool) (l : list X) :
-  Forall (fun x => p x = false) l -> filter p l = [].
-Proof. induction 1 as [|x tl Hx _ IH]; simpl; [reflexivity|]. rewrite Hx. exact IH. Qed.
-
-Lemma block_vals_same bs J (js : list row) :
-  Forall (Forall (fun e => Nat.div (fst e) bs = J)) js -> block_vals bs J js = jvals js.
-Proof.
-  unfold block_vals, jvals. induction 1 as [|r rest Hr _ IH]; simpl; [reflexivity|].
-  rewrite IH. f_equal. unfold rvals. f_equal. apply filter_all.
-  eapply Forall_impl; [|exact Hr]. intros e He. simpl in He. apply Nat.eqb_eq. exact He.
-Qed.
-
-Lemma block_vals_other bs J J' (js : list row) :
-  J' <> J ->
-  Forall (Forall (fun e => Nat.div (fst e) bs = J)) js -> block_vals bs J' js = [].
-Proof.
-  intro Hne. unfold block_vals. induction 1 as [|r rest Hr _ IH]; simpl; [reflexivity|].
-  rewrite IH, app_nil_r. rewrite filter_none; [reflexivity|].
-  eapply Forall_impl; [|exact Hr]. intros e He. simpl in He. apply Nat.eqb_neq. lia.
-Qed.
-
-Lemma flat_map_nil {X Y} (f : X -> list Y) (l : list X) :
-  (forall x, In x l -> f x = []) -> flat_map f l = [].
-Proof.
-  induction l as [|x tl IH]; intro H; simpl; [reflexivity|].
-  rewrite (H x (or_introl eq_refl)), IH; [reflexivity|]. intros y Hy. apply H. right. exact Hy.
-Qed.
-
-Lemma flat_map_seq_single {Y} (f : nat -> list Y) J n : forall s,
-  s <= J < s + n -> (forall j, j <> J -> f j = []) -> flat_map f (seq s n) = f J.
-Proof.
-  induction n as [|n IH]; intros s Hs Hf; [lia|]. simpl.
-  destruct (Nat.eq_dec s J) as [->|Hne].
-  - rewrite flat_map_nil; [apply app_nil_r|].
-    intros j Hj. apply in_seq in Hj. apply Hf. lia.
-  - rewrite (Hf s Hne). simpl. apply IH; [lia|exact Hf].
-Qed.
-
-Lemma pw_spec_row_single bs mp J (js : list row) :
-  J < mp ->
-  Forall (Forall (fun e => Nat.div (fst e) bs = J)) js ->
-  pw_spec_row bs mp js =
-  match max_list (jvals js) with None => [] | Some m => [(J, m)] end.
-Proof.
-  intros HJ H. unfold pw_spec_row.
-  rewrite (flat_map_seq_single _ J mp 0) by
-    (try lia; intros j Hj; rewrite (block_vals_other bs J j js Hj H); reflexivity).
-  rewrite (block_vals_same bs J js H). reflexivity.
-Qed.
-
-(* ------------------------------------------------------------------ *)
-(* main theorems                                                       *)
-
-Theorem pw_block_row_single_column bs mp J (js : list row) :
-  0 < bs -> J < mp ->
-  Forall (Forall (fun e => Nat.div (fst e) bs = J)) js ->
-  Exists (fun r => r <> []) js ->
-  pw_block_row bs js = pw_spec_row bs mp js.
-Proof.
-  intros Hbs HJ H E.
-  rewrite (pw_block_row_accf bs J js Hbs H E), (pw_spec_row_single bs mp J js HJ H).
-  rewrite accf_None_max_list.
-  destruct (jvals_nonempty js E) as [x [tl ->]]. reflexivity.
-Qed.
-
-(* both sides, explicitly *)
-Theorem pw_block_row_single_column_value bs mp J (js : list row) :
-  0 < bs -> J < mp ->
-  Forall (Forall (fun e => Nat.div (fst e) bs = J)) js ->
-  Exists (fun r => r <> []) js ->
-  let vals := flat_map (map (fun e => sabs (snd e))) js in
-  pw_block_row bs js = [(J, fold_left smax (tl vals) (hd s0 vals))] /\
-  pw_spec_row bs mp js = [(J, fold_left smax (tl vals) (hd s0 vals))].
-Proof.
-  intros Hbs HJ H E vals.
-  rewrite <- (pw_block_row_single_column bs mp J js Hbs HJ H E).
-  split; apply (pw_block_row_single_column_partial bs J js Hbs H E).
-Qed.
-
-(* the empty block row *)
-Lemma all_empty_single bs J (js : list row) :
-  Forall (fun r => r = []) js -> Forall (Forall (fun e => Nat.div (fst e) bs = J)) js.
-Proof. intro H. eapply Forall_impl; [|exact H]. intros r ->. constructor. Qed.
-
-Lemma jvals_empty (js : list row) : Forall (fun r => r = []) js -> jvals js = [].
-Proof. unfold jvals. induction 1 as [|r rest -> _ IH]; simpl; [reflexivity|exact IH]. Qed.
-
-Lemma block_vals_empty bs J (js : list row) :
-  Forall (fun r => r = []) js -> block_vals bs J js = [].
-Proof.
-  unfold block_vals. induction 1 as [|r rest -> _ IH]; simpl; [reflexivity|exact IH].
-Qed.
-
-Theorem pw_block_row_empty bs mp (js : list row) :
-  Forall (fun r => r = []) js ->
-  pw_block_row bs js = [] /\ pw_spec_row bs mp js = [].
-Proof.
-  intro H. split.
-  - unfold pw_block_row. rewrite (pw_init_empty js H). apply PwCopy.pw_loop_None.
-  - unfold pw_spec_row. apply flat_map_nil. intros J _.
-    rewrite (block_vals_empty bs J js H). reflexivity.
-Qed.
-
-(* ------------------------------------------------------------------ *)
-(* lifted to whole matrices                                            *)
-
-Definition single_or_empty (bs mp : nat) (js : list row) : Prop :=
-  Forall (fun r => r = []) js \/
-  exists J, J < mp /\ Forall (Forall (fun e => Nat.div (fst e) bs = J)) js.
-
-Lemma empty_or_nonempty (js : list row) :
-  Forall (fun r => r = []) js \/ Exists (fun r => r <> []) js.
-Proof.
-  induction js as [|r rest IH]; [left; constructor|].
-  destruct r as [|e tl].
-  - destruct IH as [IH|IH]; [left; constructor; [reflexivity|exact IH]|right; apply Exists_cons_tl; exact IH].
-  - right. apply Exists_cons_hd. discriminate.
-Qed.
-
-Lemma pw_block_row_single_or_empty bs mp (js : list row) :
-  0 < bs -> single_or_empty bs mp js -> pw_block_row bs js = pw_spec_row bs mp js.
-Proof.
-  intros Hbs [He | [J [HJ H]]].
-  - destruct (pw_block_row_empty bs mp js He) as [-> ->]. reflexivity.
-  - destruct (empty_or_nonempty js) as [He|E].
-    + destruct (pw_block_row_empty bs mp js He) as [-> ->]. reflexivity.
-    + apply (pw_block_row_single_column bs mp J js Hbs HJ H E).
-Qed.
-
-Theorem pointwise_matrix_single_column (A : crs) bs :
-  bs <> 0 -> nrows A / bs * bs = nrows A ->
-  Forall (single_or_empty bs (ncols A / bs)) (groups (nrows A / bs) bs (rows A)) ->
-  pointwise_matrix A bs = Some (pointwise_spec A bs).
-Proof.
-  intros Hbs Hdiv H. unfold pointwise_matrix, pointwise_spec.
-  replace (Nat.eqb bs 0) with false by lia.
-  replace (Nat.eqb (nrows A / bs * bs) (nrows A)) with true by lia. simpl.
-  f_equal. f_equal. apply map_ext_in. intros js Hjs.
-  apply pw_block_row_single_or_empty; [lia|].
-  rewrite Forall_forall in H. apply H. exact Hjs.
-Qed.
-
-End PwPos.
-
-
-End PwPos.
-Local Open Scope S_scope.
